@@ -1,5 +1,5 @@
 From Coq Require Import List ZArith Bool Reals Lra Lia.
-From ML Require Import Ops Vec NP VecR MatR Mahalanobis MahalanobisR NPFacts C01Proof.
+From ML Require Import Ops Vec NP VecR MatR Mahalanobis MahalanobisR NPFacts.
 From MLgen Require Import Src_query.
 Import ListNotations.
 Open Scope R_scope.
